@@ -91,6 +91,8 @@ class ModelMixin:
             return [(st, vint(z3.Length(st.read("bytearray.data", self.as_ref(v, st)))))]
         if v.k == "kwargs":
             return [(st, vint(len(v.xs)))]
+        if v.k == "snap" and v.cls == "dict":
+            return [(st, vint(z3.Length(v.xs["dict.keys"])))]
         return [(st, vint(z3.Length(self.as_seq(v, st))))]
 
     def class_names(self, v):
@@ -167,7 +169,7 @@ class ModelMixin:
             items = [box(self.materialize(x, st)) for x in src[1]]
             seq = z3.Concat(*[z3.Unit(i) for i in items]) if len(items) > 1 else (z3.Unit(items[0]) if items else z3.Empty(SeqV))
             r = vref(st.new_list(seq), cls="list")
-            r.note = ("static_items", list(src[1]))
+            r.note = ("static_items", list(src[1]), seq)
             return [(st, r)]
         if src[0] == "seq":
             return [(st, vref(st.new_list(src[1]), cls="list", elem=src[2]))]
@@ -191,6 +193,9 @@ class ModelMixin:
 
     def bi_iter(self, args, kw, st, node):
         v = args[0]
+        if v.k in ("ref", "val") and v.cls and self.repo.has_class(v.cls) and self.repo.attr(v.cls, "__iter__"):
+            recv = v if v.k == "ref" else self.unbox(v.t, v.cls, st)
+            return self.call_method(recv, "__iter__", [], {}, st, node)
         if v.k == "tuple" and not v.xs:
             return [(st, V("iter", xs=("static", []), cls="iterator"))]
         return [(st, V("iter", xs=("iter", v), cls="iterator"))]
@@ -309,7 +314,7 @@ class ModelMixin:
             return [(st, v)]
         if v.k in ("ref", "val") and v.cls == "bytearray":
             return [(st, V("bytes", st.read("bytearray.data", self.as_ref(v, st))))]
-        if v.k == "ref" and v.cls == "list" and v.note and v.note[0] == "static_items":
+        if v.k == "ref" and v.cls == "list" and v.note and v.note[0] == "static_items" and st.items(v.t).eq(v.note[2]):
             bs = [z3.Unit(z3.Int2BV(self.as_int(x), 8)) for x in v.note[1]]
             # bytes([x]) raises ValueError outside range(256)
             out = []
@@ -322,6 +327,12 @@ class ModelMixin:
             return out
         raise Unsupported(f"{self.where(node)}: bytes() of {v!r}")
 
+    def int_of_val(self, t):
+        """int(x) for a boxed value when it succeeds: identity on ints, 0/1 on bools, an uninterpreted parse otherwise"""
+        if not hasattr(self, "_PARSEV"):
+            self._PARSEV = z3.Function("PARSE_INT", Val, Int)
+        return z3.If(Val.is_I(t), Val.i(t), z3.If(Val.is_B(t), z3.If(Val.b(t), 1, 0), self._PARSEV(t)))
+
     def bi_int(self, args, kw, st, node):
         v = args[0]
         if v.k in ("int", "bool"):
@@ -332,7 +343,7 @@ class ModelMixin:
             out = []
             for s, b in self.branch(st, ok, "int() parses"):
                 if b:
-                    r = fresh("int_of", Int)
+                    r = self.int_of_val(box(v))
                     if v.k == "str":
                         s.assume(z3.Implies(z3.StrToInt(v.t) >= 0, r == z3.StrToInt(v.t)))
                     out.append((s, vint(r)))
@@ -357,7 +368,7 @@ class ModelMixin:
                             ok = fresh("int_parses", Bool)
                             for s3, b3 in self.branch(s2, ok, "int() parses"):
                                 if b3:
-                                    out.append((s3, vint(fresh("int_of", Int))))
+                                    out.append((s3, vint(self.int_of_val(t))))
                                 else:
                                     out.append((self.raise_exc(s3, "ValueError"), None))
             return out
@@ -387,6 +398,21 @@ class ModelMixin:
 
     def bi_next(self, args, kw, st, node):
         v = args[0]
+        if v.k in ("ref", "val") and (v.cls == "iterator" or v.k == "val"):
+            r = self.as_ref(v, st)
+            lst = st.read("iterator.seq", r, Int)
+            pos = st.read("iterator.pos", r, Int)
+            seq = st.items(lst)
+            out = []
+            for s, b in self.branch(st, z3.And(pos >= 0, pos < z3.Length(seq)), "iterator has next"):
+                if b:
+                    s.write("iterator.pos", r, pos + 1, Int)
+                    out.append((s, self.unbox(seq[pos], v.elem, s)))
+                elif len(args) > 1:
+                    out.append((s, args[1]))
+                else:
+                    out.append((self.raise_exc(s, "StopIteration"), None))
+            return out
         if v.k == "iter" and v.xs[0] == "iter":
             seq = self.as_seq(v.xs[1], st)
             out = []
@@ -573,12 +599,22 @@ class ModelMixin:
     def m_str_join(self, recv, args, kw, st, node):
         return [(st, V("str", fresh("joined", Str)))]
 
-    def m_str_split(self, recv, args, kw, st, node):
-        r = fresh("split", SeqV)
+    def split_fn(self, which="SPLIT"):
+        if not hasattr(self, "_" + which):
+            setattr(self, "_" + which, z3.Function(which, Str, Str, Int, SeqV))
+        return getattr(self, "_" + which)
+
+    def m_str_split(self, recv, args, kw, st, node, which="SPLIT"):
+        sep = args[0].t if args else z3.StringVal(" ")
+        mx = self.as_int(args[1]) if len(args) > 1 else z3.IntVal(-1)
+        r = self.split_fn(which)(recv.t, sep, mx)
         st.assume(z3.Length(r) >= 1)
+        if len(args) > 1:
+            st.assume(z3.Implies(mx >= 0, z3.Length(r) <= mx + 1))
         return [(st, V("seq", r, elem="str"))]
 
-    m_str_rsplit = m_str_split
+    def m_str_rsplit(self, recv, args, kw, st, node):
+        return self.m_str_split(recv, args, kw, st, node, which="RSPLIT")
 
     def m_str_count(self, recv, args, kw, st, node):
         c = fresh("count", Int)
